@@ -19,4 +19,5 @@ INVARIANT C08_Reassembly
 INVARIANT C07_SeqMode
 INVARIANT C05_SeqLevel
 INVARIANT C13_SeqTail
+INVARIANT SA_Progress
 INVARIANT SAExport
